@@ -14,8 +14,13 @@ SPEC = Spec(
                 test="TestVerifC11Shared", driver="drv_c11", n={"quick": 3000, "thorough": 30000},
                 mod_append=["require go.opentelemetry.io/collector/internal/sharedcomponent v0.124.0",
                             "replace go.opentelemetry.io/collector/internal/sharedcomponent => $REPO/internal/sharedcomponent"]),
+        Harness(name="graph", module="service", pkg="service/internal/graph",
+                files={"zz_verif_c11_graph_test.go": "c11/graph_test.go"},
+                test="TestVerifC11Graph", driver="drv_c11", n={"quick": 800, "thorough": 10000}),
     ],
-    rule="reporter: random report sequences (0-30 reports, 1-3 instances, all 8 statuses + ReportOKIfStarting) against the real "
+    rule="graph: real graph.Build/StartAll/ShutdownAll with components that report random statuses from Start, while running (one goroutine "
+         "per instance) and from Shutdown and that fail Start/Shutdown at random; per-instance events compared with Life.events; "
+         "non-trivial = some component reports itself. reporter: random report sequences (0-30 reports, 1-3 instances, all 8 statuses + ReportOKIfStarting) against the real "
          "status.Reporter, every 5th case concurrent goroutines (monitored); non-trivial = contains an illegal report or is concurrent. "
          "shared: real sharedcomponent.Component with 1-4 instance hosts attached at random points of a random report history; "
          "non-trivial = at least two instances attached. distinct = distinct op sequences (sha1 of the op lines).",
